@@ -197,7 +197,29 @@ impl Node {
         }
     }
 
+    /// A sentinel through the whole service -> preload -> verify pipeline: re-delivery of an
+    /// already verified main-chain block is answered `Ok(false)` by the verify thread after it
+    /// has finished (commit, snapshot publication, notifications) every block queued before it.
+    pub fn verify_barrier(&self) -> Result<(), String> {
+        use ckb_store::ChainStore;
+        let store = self.shared.store();
+        let tipn = store.get_tip_header().map(|t| t.number()).unwrap_or(0);
+        if tipn == 0 {
+            return Ok(());
+        }
+        let b1 = store.get_block_hash(1).and_then(|h| store.get_block(&h)).ok_or("block 1 of the main chain not readable")?;
+        match self.chain().blocking_process_block(Arc::new(b1)) {
+            Ok(false) => Ok(()),
+            other => Err(format!("verified-block sentinel answered {:?}", other.map_err(|e| e.to_string()))),
+        }
+    }
+
     pub fn quiesce(&self) -> Result<(), String> {
+        self.quiesce_inner()?;
+        self.verify_barrier()
+    }
+
+    fn quiesce_inner(&self) -> Result<(), String> {
         self.service_barrier()?;
         let t = Instant::now();
         loop {
